@@ -1616,11 +1616,13 @@ impl UndoOperation for RemoveFont {
 pub struct ChangeFontSlot {
     from: usize,
     to: usize,
+    /// the font the move overwrote in slot `to`
+    replaced_font: Option<BitFont>,
 }
 
 impl ChangeFontSlot {
     pub fn new(from: usize, to: usize) -> Self {
-        Self { from, to }
+        Self { from, to, replaced_font: None }
     }
 }
 
@@ -1633,6 +1635,9 @@ impl UndoOperation for ChangeFontSlot {
         let font = edit_state.buffer.remove_font(self.to);
         if let Some(font) = font {
             edit_state.buffer.set_font(self.from, font);
+            if let Some(replaced) = self.replaced_font.take() {
+                edit_state.buffer.set_font(self.to, replaced);
+            }
             Ok(())
         } else {
             Err(anyhow::anyhow!("empty font slot."))
@@ -1642,6 +1647,7 @@ impl UndoOperation for ChangeFontSlot {
     fn redo(&mut self, edit_state: &mut EditState) -> EngineResult<()> {
         let font = edit_state.buffer.remove_font(self.from);
         if let Some(font) = font {
+            self.replaced_font = edit_state.buffer.remove_font(self.to);
             edit_state.buffer.set_font(self.to, font);
             Ok(())
         } else {
